@@ -555,6 +555,16 @@ def lammpstrj_reader(
     coordinate_snapshot = np.zeros(1)
     if reader_class.file_object is None:
         return trajectory, box
+    # The newline that ends the previous frame may not have been on disk when
+    # that frame was returned. Skip it here, so that the frames behind it are
+    # read in this call and not one poll later (the engines read only once
+    # more after the program has ended).
+    start = reader_class.file_object.tell()
+    if reader_class.file_object.read(1) == "\n":
+        reader_class.previous_position = reader_class.current_position
+        reader_class.current_position = reader_class.file_object.tell()
+    else:
+        reader_class.file_object.seek(start)
     for i, line in enumerate(iter(reader_class.file_object.readline, "")):
         if i == 0 and line == "\n":
             # In case where newline wasn't written after we finished reading
